@@ -1,5 +1,6 @@
 """Define the base Jacobian class."""
 import numpy as np
+from scipy.sparse import issparse
 
 from openmdao.utils.iter_utils import meta2range_iter
 from openmdao.jacobians.subjac import Subjac
@@ -163,14 +164,13 @@ class Jacobian(object):
         else:
             col_slice = self._output_slices[wrt]
 
-        subjac = self._subjac_from_meta(abs_key, meta, row_slice, col_slice, wrt_is_input, dtype)
+        # the shared metadata may still hold a complex value left by a complex step pass of a
+        # previous jacobian of the same system.
+        val = meta['val']
+        if dtype.kind == 'f' and val is not None and np.iscomplexobj(val):
+            meta['val'] = val.real if issparse(val) else np.ascontiguousarray(val.real)
 
-        # the shared metadata may still hold a value left in another dtype (complex step) by a
-        # previous jacobian of the same system, so make it match the requested dtype.
-        if subjac.info['val'] is not None:
-            subjac.set_dtype(dtype)
-
-        return subjac
+        return self._subjac_from_meta(abs_key, meta, row_slice, col_slice, wrt_is_input, dtype)
 
     def _subjac_from_meta(self, key, meta, row_slice, col_slice, wrt_is_input, dtype,
                           src_inds_list=None, factor=None, src=None):
